@@ -501,6 +501,30 @@ func (e *Engine) registerIntrinsics() {
 	in["sort.Slice"] = sortSlice
 	in["sort.SliceStable"] = sortSlice
 
+	// ---------------- milvus retry ----------------
+	// retry.Do(ctx, fn, opts...): documented contract = call fn until it returns nil,
+	// at most `attempts` times, and return the last error. Modelled with R attempts
+	// (entry parameter R, default 2); option constructors are opaque.
+	retryPkg := "github.com/milvus-io/milvus/pkg/util/retry"
+	in[retryPkg+".Do"] = func(c *PathCtx, fr *frame, args []Value) Value {
+		R := c.eng.param(c.entry, "R", 2)
+		var last Value = Iface{}
+		for i := 0; i < R; i++ {
+			r := c.call(fr, fr.callPos, args[1], nil, nil)
+			if isNilValue(r) {
+				return Iface{}
+			}
+			last = r
+			if c.exploring {
+				c.yield(true)
+			}
+		}
+		return last
+	}
+	for _, n := range []string{"Attempts", "Sleep", "MaxSleepTime", "RetryErr", "AttemptAlways"} {
+		in[retryPkg+"."+n] = func(c *PathCtx, fr *frame, args []Value) Value { return (*ssa.Function)(nil) }
+	}
+
 	// ---------------- misc ----------------
 	in["runtime.Gosched"] = func(c *PathCtx, fr *frame, args []Value) Value { c.yield(false); return nil }
 	in["os.Getenv"] = func(c *PathCtx, fr *frame, args []Value) Value { return mkStr("") }
